@@ -1,5 +1,6 @@
 //! Port-level workers (whole iceoryx2 stack, `local::Service` and `ipc::Service`).
 mod dom;
+mod grow;
 mod ps;
 mod ps_conc;
 mod rr;
@@ -156,6 +157,54 @@ fn rr_campaign(args: &Args, prop: &str) -> Report {
     rep
 }
 
+fn grow_campaign(args: &Args) -> Report {
+    let seed = args.u64("seed", 1);
+    let shard = args.u64("shard", 0);
+    let secs = args.u64("secs", 5);
+    let svc = args.str("svc", "local");
+    let deadline = Instant::now() + Duration::from_secs(secs);
+    let only = args.kv.get("only-hist").map(|s| s.parse::<u64>().unwrap());
+    let mut rep = Report::new();
+    dom::install_log_capture();
+    let d = dom::Domain::new(&format!("c15g{}", shard));
+    let mut i = 0u64;
+    while Instant::now() < deadline {
+        let hi = only.unwrap_or(i);
+        let mut rng = Rng::derive(&[seed, shard, hi, 1515]);
+        let buf = rng.range(1, 3) as usize;
+        let cfg = grow::GCfg { strategy: rng.below(5).min(2) as u8 % 3, initial_len: rng.range(1, 64) as usize, buf, borrow: rng.range(1, 3) as usize, hist: rng.below(buf as u64 + 1) as usize, overflow: rng.chance(1, 2), nsub: rng.range(1, 2) as usize };
+        let steps = rng.range(20, 120) as usize;
+        let o = if svc == "ipc" { grow::run::<iceoryx2::service::ipc::Service>(&d.config, &mut rng, cfg, steps, hi ^ (shard << 40)) } else { grow::run::<iceoryx2::service::local::Service>(&d.config, &mut rng, cfg, steps, hi ^ (shard << 40)) };
+        rep.execs += 1;
+        for (k, v) in &o.events {
+            rep.count(k, *v);
+        }
+        if o.events.get("growth_while_samples_held").is_some() {
+            rep.nontrivial += 1;
+            rep.distinct(vkit::fnv_str(&format!("{:?}{:?}", cfg, o.events)));
+        }
+        if i < 1 {
+            rep.sample(Json::obj().set("growth_config", format!("{:?}", cfg)).set("service", svc.as_str()).set("history_prefix", o.trace.iter().take(30).cloned().collect::<Vec<_>>().join(" ")));
+        }
+        let bad = dom::drain_bad_logs(&[]);
+        let w = Json::obj().set("config", format!("{:?}", cfg)).set("replay_args", format!("c15g --svc {} --seed {} --shard {} --only-hist {}", svc, seed, shard, hi));
+        if let Some((rule, msg)) = o.mismatch {
+            rep.violation(&rule, format!("C15:growth:{}", rule), msg, w);
+        } else if !bad.is_empty() {
+            rep.violation("error_logged_inside_contract", "C15:growth:error_logged", bad[0].clone(), w);
+        }
+        let res = d.residue();
+        if !res.is_empty() {
+            rep.violation("residue", "C15:growth:residue", format!("segments left after all objects were dropped: {:?}", &res[..res.len().min(6)]), Json::obj().set("config", format!("{:?}", cfg)));
+        }
+        i += 1;
+        if only.is_some() {
+            break;
+        }
+    }
+    rep
+}
+
 fn ps_concurrent(args: &Args, prop: &str) -> Report {
     use vkit::sched::Mode;
     let seed = args.u64("seed", 1);
@@ -213,6 +262,7 @@ fn main() {
         "c08" => ps_campaign(&args, "C08"),
         "c01c" => ps_concurrent(&args, "C01"),
         "c11" => rr_campaign(&args, "C11"),
+        "c15g" => grow_campaign(&args),
         "c08r" => rr_campaign(&args, "C08"),
         "warmup" => return,
         other => {
